@@ -149,11 +149,12 @@ ImplSign(m, I, J) ==
       s0 == Parity(r[1])
   IN  FoldSet(LAMBDA i, acc : acc * m.usig[r[3][i] - m.start + 1], s0, DOMAIN r[3])
 
-\* _blade2canon (algebra.py:469-479): <<canonical name, swaps>>, or <<"none", 0>> when the
+\* _blade2canon (algebra.py:469-479): <<canonical name, swaps>>, or <<NoBlade, 0>> when the
 \* spelling names no blade of the algebra
+NoBlade == <<-1>>          \* (the code returns the name e{2**d} of a blade outside the algebra)
 Blade2Canon(m, name) ==
   IF \E i \in 1 .. Pow2(m.d) : CanonName(m, i - 1) = name THEN <<name, 0>>
-  ELSE IF \E k \in DOMAIN name : GenPos(m, name[k]) = -1 THEN <<"none", 0>>
+  ELSE IF \E k \in DOMAIN name : GenPos(m, name[k]) = -1 THEN <<NoBlade, 0>>
   ELSE LET canon == CanonName(m, NameBin(m, name))
            r == SwapBlades(name, <<>>, canon)
        IN  <<canon, r[1]>>
